@@ -1486,6 +1486,15 @@ def table_row_check_attrs(ctx: "Wtp") -> None:
     if len(node.children) < 1:
         return
 
+    if any(
+        isinstance(x, WikiNode)
+        and x.kind in (NodeKind.TABLE_CELL, NodeKind.TABLE_HEADER_CELL)
+        for x in node.children
+    ):
+        # The row already has cells: what is in it cannot be its attributes
+        # ("|a=1||x" used to lose the first cell to attrs={'a': '1'})
+        return
+
     check, attribute_string = check_for_attributes(ctx, node)
     if not check:
         return
